@@ -5,7 +5,8 @@ import numpy as np
 from hypothesis import strategies as st
 
 from .. import gen, oracle as O, ps
-from ..pyxshim import ShimOutOfBounds
+from ..pyxshim import ShimOutOfBounds, shim_gap
+from ..env import HarnessError
 from ..runner import HypPhase, EnumPhase
 from .c10 import pw_arrays
 from .c11 import df_arrays
@@ -128,6 +129,10 @@ def _run(fn, *a):
     except ShimOutOfBounds as e:
         return ("oob", str(e))
     except Exception as e:
+        if shim_gap(e):
+            raise HarnessError("the transliterated .pyx code uses an undefined name (%s): a "
+                               "construct outside the shim's Cython subset, or a file Cython "
+                               "would not compile" % e)
         return ("exc", type(e).__name__ + ": " + str(e)[:80])
 
 
